@@ -931,6 +931,8 @@ func runC05(r *Run) {
 		r.Res.Extra = map[string]interface{}{"nilconds": checkHelperConds(r, ck)}
 	}
 	ck.Done()
+	// a fingerprinted message stays checkable after an integrity check (of any outcome) ran on it
+	r.Borrow("C04", map[string]string{"C04.restore": "C05.integrityrestore"})
 	wr := r.Rule("C05.wire", "Decode and everything it calls never write a byte of the message (Raw and views of it): the CRC is computed over the bytes as received", 1)
 	checkDecodeReadOnly(r, wr)
 	wr.Done()
